@@ -141,6 +141,31 @@ def run(prog, tier, extra=None):
 
     def bf_pair(a, b):
         return a[0] == "local" and b[0] == "local" and accumulates_from(a[1], OLD) and accumulates_from(b[1], NEW)
+
+    def non_cumulative_updates(local):
+        """assignments of a burn-fee accumulator that read Block.burnfee but do not add to the previous value"""
+        bad = []
+        for bb, blk in enumerate(lc.blocks):
+            for st in blk["s"]:
+                if st[0] == "=" and st[1] == [local, []]:
+                    e = chl.rvalue(st[2], 0)
+                    if not has_field(e, "block::Block", "burnfee"):
+                        continue
+                    adds_self = any(x[0] == "bin" and x[1].startswith("Add") and any(
+                        strip(y) == ("local", local, lc.name_of(local)) for y in (x[2], x[3])) for x in walk(e)) or any(
+                        x[0] in ("call", "via") and x[1].rsplit("::", 1)[-1] in ("saturating_add", "checked_add", "wrapping_add") for x in walk(e))
+                    if not adds_self:
+                        bad.append(bb)
+        return bad
+    for side, par in (("old", OLD), ("new", NEW)):
+        for l in range(len(lc.locals)):
+            if lc.ty(l)["s"] == "u64" and accumulates_from(l, par) and len(lc.defs(l)) > 1:
+                res.instance(R2)
+                nb = non_cumulative_updates(l)
+                if nb:
+                    res.add(Finding(R2, "C05.strictly-longer|burnfee-not-cumulative|%s" % side,
+                                    "is_new_chain_the_longest_chain overwrites the %s segment's burn fee with a single block's burn fee instead of adding it: "
+                                    "a longer but lighter fork can win" % side, lc.loc(nb[0])))
     bfc = gate.order_edges(lc, chl, bf_pair)
     # `... && old_bf <= new_bf` as the tail expression: the comparison is the returned value itself
     ret_cmp = [(bb, op) for bb, op in gate.returned_comparisons(lc, chl, bf_pair)]
